@@ -62,6 +62,10 @@ func (p *profile) Parse(rawUrl string) (*url.Url, error) {
 }
 
 func (p *profile) ParseRef(rawUrl, ref string) (*url.Url, error) {
+	// same convention as url.ParseRef: an empty base means "no base"
+	if rawUrl == "" {
+		return p.Parse(ref)
+	}
 	b, err := p.Parser.Parse(rawUrl)
 	if err != nil {
 		if errors.Type(err) == errors.MissingSchemeNonRelativeURL && p.defaultScheme != "" {
